@@ -439,6 +439,133 @@ theorem sortByResid_of_perm (ns ms : List (ResNode κ)) (hp : ns.Perm ms)
 
 end regular
 
+/-! ## the `graph` attribute of the residue nodes -/
+
+theorem reindex_resid_const (s r c : Nat) (as : List BAtom) (h : ∀ a ∈ as, a.resid = 1) :
+    ∀ a ∈ reindex s r c as, a.resid = 1 + r := by
+  induction as generalizing s with
+  | nil => intro a ha; simp [reindex] at ha
+  | cons b rest ih =>
+    intro a ha
+    simp only [reindex, List.mem_cons] at ha
+    rcases ha with rfl | ha
+    · simp [h b (by simp)]
+    · exact ih (s + 1) (fun x hx => h x (by simp [hx])) a ha
+
+/-- `_correspondence_to_residue` right after a single-residue block was merged onto a good molecule:
+every atom of the new copy is found (its node does not occur earlier) and carries the residue's id -/
+theorem residueOf_merge (m : Mol) (b : Block) (r c : Nat) (g : Good m r c) (hs : SingleBlock b) :
+    residueOf (mergeMolecule m b).1 (mergeMolecule m b).2 (r + 1) =
+      List.range' m.atoms.length b.atoms.length := by
+  rw [mergeMolecule_good m b r c g]
+  simp only [reindex_nodes]
+  unfold residueOf
+  apply List.filter_eq_self.mpr
+  intro v hv
+  have hvr := List.mem_range'_1.mp hv
+  simp only [Mol.residOf?, List.find?_append]
+  have hnone : List.find? (fun a => a.node == v) m.atoms = none := by
+    apply List.find?_eq_none.mpr
+    intro a ha
+    have : a.node ∈ m.atoms.map (·.node) := List.mem_map.mpr ⟨a, ha, rfl⟩
+    rw [g.nodes] at this
+    have := List.mem_range.mp this
+    simp only [beq_iff_eq, ne_eq]
+    omega
+  rw [hnone]
+  simp only [Option.none_or]
+  have hmem : v ∈ (reindex m.atoms.length r c b.atoms).map (·.node) := by
+    rw [reindex_nodes]; exact hv
+  obtain ⟨a0, ha0, hnode⟩ := List.mem_map.mp hmem
+  cases hf : List.find? (fun a => a.node == v) (reindex m.atoms.length r c b.atoms) with
+  | none =>
+    have := List.find?_eq_none.mp hf a0 ha0
+    simp [hnode] at this
+  | some a =>
+    have ha := List.mem_of_find?_eq_some hf
+    have := reindex_resid_const m.atoms.length r c b.atoms hs.2 a ha
+    simp [this, Nat.add_comm]
+
+section graphs
+variable {κ : Type} [DecidableEq κ]
+
+theorem addBlocksFrom_regular_graphs (ff : FF) (t : Tables κ) :
+    ∀ (rs : List (ResNode κ)) (st : St κ) (r c : Nat),
+      Good st.mol r c → st.added = [] → (∀ n ∈ rs, RegularNode ff t n) →
+      rs.map (·.resid) = List.range' (r + 1) rs.length →
+      ∃ st', addBlocksFrom ff t st rs = .ok st' ∧
+        st'.graphs = st.graphs ++ specGraphs ff st.mol.atoms.length rs := by
+  intro rs
+  induction rs with
+  | nil =>
+    intro st r c _ _ _ _
+    exact ⟨st, rfl, by simp [specGraphs]⟩
+  | cons n rest ih =>
+    intro st r c g hadd hreg hres
+    obtain ⟨hfi, htbl, b, hb, hs⟩ := hreg n (by simp)
+    obtain ⟨la, hla, hla1⟩ := single_getLast b hs
+    have hstep := stepNode_regular ff t st n b hadd hfi htbl hb hs
+    have hnres : n.resid = r + 1 := by
+      have := congrArg List.head? hres
+      simpa [List.range'_succ] using this
+    have hrest : rest.map (·.resid) = List.range' (r + 1 + 1) rest.length := by
+      have := congrArg List.tail hres
+      simpa [List.range'_succ] using this
+    have g1 : Good (mergeMolecule st.mol b).1 (r + 1) (la.cgrp + c) := by
+      have := good_merge st.mol b r c g la hla
+      rw [hla1] at this
+      rw [Nat.add_comm r 1]
+      exact this
+    have hlen : (mergeMolecule st.mol b).1.atoms.length = st.mol.atoms.length + b.atoms.length := by
+      rw [mergeMolecule_good st.mol b r c g]
+      simp [reindex_length]
+    obtain ⟨st', hrun, hgraphs⟩ :=
+      ih ⟨(mergeMolecule st.mol b).1,
+          st.graphs ++ [(n.key, residueOf (mergeMolecule st.mol b).1 (mergeMolecule st.mol b).2 n.resid)],
+          st.added, st.corrs⟩ (r + 1) (la.cgrp + c) g1 hadd
+        (fun m hm => hreg m (by simp [hm])) hrest
+    refine ⟨st', ?_, ?_⟩
+    · simp only [addBlocksFrom, hstep]
+      exact hrun
+    · rw [hgraphs]
+      simp only [specGraphs, hb, hlen, hnres, residueOf_merge st.mol b r c g hs, List.append_assoc,
+        List.singleton_append]
+
+/-- after `add_blocks` every residue node's `graph` is exactly the atom range of its block copy -/
+theorem addBlocksSorted_regular_graphs (ff : FF) (t : Tables κ) (rs : List (ResNode κ)) (start : Nat)
+    (hne : rs ≠ []) (hstart : 1 ≤ start) (hreg : ∀ n ∈ rs, RegularNode ff t n)
+    (hres : rs.map (·.resid) = List.range' start rs.length) :
+    ∃ st, addBlocksSorted ff t rs = .ok st ∧ st.graphs = specGraphs ff 0 rs := by
+  cases rs with
+  | nil => exact absurd rfl hne
+  | cons n rest =>
+    obtain ⟨hfi, htbl, b, hb, hs⟩ := hreg n (by simp)
+    obtain ⟨la, hla, hla1⟩ := single_getLast b hs
+    have hnres : n.resid = start := by
+      have := congrArg List.head? hres
+      simpa [List.range'_succ] using this
+    have hrest : rest.map (·.resid) = List.range' (start + 1) rest.length := by
+      have := congrArg List.tail hres
+      simpa [List.range'_succ] using this
+    have hfirst := firstNode_regular ff t n b hfi htbl hb hs
+    have g0 : Good (⟨place 0 n.resid 1 0 b.atoms, b.ixns.map (shiftIxn 0)⟩ : Mol) start la.cgrp := by
+      rw [hnres]
+      exact good_first b start (by omega) la hla hla1 _
+    obtain ⟨st', hrun, hgraphs⟩ :=
+      addBlocksFrom_regular_graphs ff t rest
+        ⟨⟨place 0 n.resid 1 0 b.atoms, b.ixns.map (shiftIxn 0)⟩,
+          [(n.key, (reindex 0 0 0 b.atoms).map (·.node))], [], []⟩ start la.cgrp g0 rfl
+        (fun m hm => hreg m (by simp [hm])) hrest
+    refine ⟨st', ?_, ?_⟩
+    · simp only [addBlocksSorted, hfirst]
+      exact hrun
+    · rw [hgraphs]
+      simp [specGraphs, hb, place_length, reindex_nodes]
+
+end graphs
+
+
+
 /-! ## dictionaries built by repeated assignment (`fold_insert_last` in this model's terms) -/
 
 section assoc
